@@ -56,6 +56,15 @@ def expand(ctx, k):
     """abstract bases / variants -> the concrete classes that can be entered"""
     if k.is_subclass_of('VariantParsableBase'):
         vs = variant_classes(k, ctx.canon)
+        if not vs:
+            # a registry the evaluator cannot compute (built by a comprehension over method results): every parsable class named
+            # in the body of the variant class may be entered
+            vs = set()
+            for n in (x for st in k.node.body for x in ast.walk(st)):
+                if isinstance(n, ast.Name):
+                    r = ctx.model.resolve_name(k.module, n.id)
+                    if isinstance(r, ClassInfo) and r is not k and ctx.model.is_parsable(r):
+                        vs |= {r} if not r.abstract_methods else {s for s in ctx.model.all_subclasses(r) if not s.abstract_methods}
         return set(vs or []) | {k}
     if k.abstract_methods:
         return {s for s in ctx.model.all_subclasses(k) if not s.abstract_methods}
@@ -131,8 +140,33 @@ def check(ctx, report):
     for c in classes:
         if color.get(c) is None:
             dfs(c, [c])
-    for cyc in cycle[:5]:
-        report.add('C19.R1', 'containment@cycle[%s]' % '>'.join(cyc), 'parsing can recurse without bound through %s' % ' > '.join(cyc))
+    # one finding per strongly connected group of classes (keyed by its members, not by the order they were met in)
+    groups = []
+    for cyc in cycle:
+        members = set(cyc)
+        for g in groups:
+            if g & members:
+                g |= members
+                break
+        else:
+            groups.append(members)
+    merged = True
+    while merged:
+        merged = False
+        for i, g in enumerate(groups):
+            for h in groups[i + 1:]:
+                if g & h:
+                    g |= h
+                    groups.remove(h)
+                    merged = True
+                    break
+            if merged:
+                break
+    for g in groups:
+        names = sorted(g)
+        example = next(c for c in cycle if set(c) <= g)
+        report.add('C19.R1', 'containment@cycle[%s%s]' % (','.join(names[:4]), ',+%d' % (len(names) - 4) if len(names) > 4 else ''),
+                   'parsing can recurse without bound (depth grows with the input, RecursionError in the end), e.g. through %s' % ' > '.join(example))
     maxd = max(depth.values()) if depth else 0
     report.sample({'rule': 'C19.R1', 'classes': len(graph), 'edges': sum(len(v) for v in graph.values()), 'max_nesting_depth': maxd})
     # the one intra-primitive cycle: _apply_item_class <-> _parse_string_until_separator is cut by fallback_class=None
